@@ -1,3 +1,63 @@
-(* placeholder until the proofs are written *)
-From Coq Require Import ZArith.
-Theorem C18_placeholder : True. Proof. exact I. Qed.
+(* C18 - features of a later ISO-14229 edition are refused under an earlier edition.  Statements only. *)
+From Coq Require Import ZArith List Bool String.
+From UDS Require Import Lib.Bytes Lib.ErrM Lib.PyOps Gen.DtcGroups Spec.IsoEditions Model.Message Model.Client
+  Model.Services Model.Helpers Model.Svc_Simple Model.Svc_Dtc Model.History Proofs.C18_lemmas.
+Import ListNotations.
+Open Scope Z_scope.
+
+(* the regenerated subfunction lists of the library are exactly ISO's (all editions / 2020-only) *)
+Theorem C18_lists :
+  same_set (group "subfunction2020") iso_dtc_subfunctions_2020 = true /\
+  same_set gen_dtc_subfunctions iso_dtc_subfunctions = true.
+Proof. exact dtc_lists_are_iso. Qed.
+Print Assumptions C18_lists.
+
+(* every subfunction value, every edition value: unknown -> refused; 2020-only -> refused iff edition < 2020 *)
+Theorem C18_dtc_subfunction : forall std_ sub,
+  check_subfunction_valid std_ sub =
+  if negb (mem sub iso_dtc_subfunctions) then inl EValue
+  else if mem sub iso_dtc_subfunctions_2020 && (std_ <? 2020) then inl ENotImpl
+  else inr tt.
+Proof. exact check_subfunction_spec. Qed.
+Print Assumptions C18_dtc_subfunction.
+
+Theorem C18_no_other_gated : forall std_ std' sub, mem sub iso_dtc_subfunctions_2020 = false ->
+  check_subfunction_valid std_ sub = check_subfunction_valid std' sub.
+Proof. exact not_gated. Qed.
+
+(* refused means nothing is built, hence nothing is sent (single_request sends only a built request) *)
+Theorem C18_refused_before_sending : forall cfg sub a e,
+  check_subfunction_valid (std cfg) sub = inl e -> rdtci_make cfg sub a = inl e.
+Proof. exact rdtci_make_refused. Qed.
+Print Assumptions C18_refused_before_sending.
+
+(* memory selection on clear_dtc: refused under < 2020 for every group and value; encoded as a 4th byte from 2020 *)
+Theorem C18_clear_dtc_memory_selection : forall cfg g m, 0 <= g <= 16777215 ->
+  (std cfg < 2020 -> cdi_make cfg g (Some m) = inl ENotImpl) /\
+  (2020 <= std cfg -> 0 <= m <= 255 ->
+     exists rq, cdi_make cfg g (Some m) = inr rq /\ q_data rq = Some (be_enc 3 g ++ [m])).
+Proof. exact cdi_memsel. Qed.
+Print Assumptions C18_clear_dtc_memory_selection.
+
+(* node identification: accepted exactly when present <-> (edition >= 2013 and control type 4 or 5) *)
+Theorem C18_node_id : forall cfg ct cty node, 0 <= ct <= 127 ->
+  (match node with Some n => 0 <= n <= 65535 | None => True end) ->
+  0 <= commtype_byte cty < 256 ->
+  (exists rq, cc_make cfg ct cty node = inr rq) <->
+  (match node with Some _ => true | None => false end) = node_required (std cfg) ct.
+Proof. exact cc_node_rule. Qed.
+Print Assumptions C18_node_id.
+
+(* a session-change reply is accepted under >= 2013 only with exactly the four timing bytes *)
+Theorem C18_session_reply : forall cfg session r sd,
+  dsc_interpret cfg session r = inr sd ->
+  (2013 <= std cfg -> List.length (p_data r) = 5%nat) /\ (1 <= List.length (p_data r))%nat.
+Proof. exact dsc_reply_length. Qed.
+Print Assumptions C18_session_reply.
+
+(* only 2006, 2013, 2020 are accepted as edition on a configuration change *)
+Theorem C18_edition_values : forall cfgv st now v,
+  let '(out, cfgv', _, _) := step_op cfgv st now (OSetCfg 6 v) in
+  (mem v iso_editions = true -> out = []) /\ (mem v iso_editions = false -> out = [2; err_code EConfig]).
+Proof. exact set_edition. Qed.
+Print Assumptions C18_edition_values.
